@@ -1,5 +1,6 @@
 import Srctools.Proofs.C10
 import Srctools.Proofs.C10Bytes
+import Srctools.Proofs.C10Concrete
 import Srctools.Gen.Bsp
 /-!
 # C10 — saving an unmodified BSP is lossless whichever lumps were looked at
@@ -93,7 +94,7 @@ theorem C10_content (T : Tables) (h : TablesOK T = true) (C : Codec B V) (L : La
     IsEnv T C (save T C (accesses T C xs (init raw₀))).raw E ∧
     (∀ l, T.owned l = false → (save T C (accesses T C xs (init raw₀))).raw l = raw₀ l) := by
   obtain ⟨h1, h2, h3, h4, h5, h6, h7⟩ := ok_parts h
-  obtain ⟨_, hb, hc⟩ := content_all T C h1 h3 h5 h4 h7 L raw₀ E hE xs hxs
+  obtain ⟨_, hb, hc⟩ := content_all T C h1 h3 h5 h4 h7 L.frame raw₀ E hE (L.at hE) xs hxs
   obtain ⟨hnone, _⟩ := flush_all T C h1 h2 h3 h6 h7 raw₀ xs hxs
   exact ⟨fun v hv => hb v hv (by omega) (hnone v), hc⟩
 
@@ -208,6 +209,163 @@ theorem C10_flush_needs_live_loop :
       (accesses { tablesSnapshotLoop with snapshot := false } (mainCodec tablesSnapshotLoop) [16]
         (init fun l => l + 100))).clr 6 = false := by
   decide +kernel
+
+/-! ## Concrete codecs from C11 (`Proofs/C10Concrete.lean`)
+
+Views with their real reader / writer (C11's models over the format strings of `Gen.Bspfmt`):
+**cubemaps, visibility, vertexes, planes**.  Still abstract (hypothesis `AbstractOK`, only at these views):
+pakfile, ents, textures, texinfo, overlays, bmodels, brushes, visleafs, water_leaf_info, nodes, surfedges,
+faces, orig_faces, hdr_faces, primitives, props, detail_props — C11's theorems for most of them are stated
+over tables of object numbers (`find_or_insert` on identities), not over lump bytes + parsed views, and are not
+plugged in here. -/
+
+/-- exactly these views of the current tables have a concrete codec. -/
+theorem C10_concrete_views :
+    (List.range Gen.Bsp.tables.n).filter (fun v => (specOf (A := Unit) v).isSome) = [4, 11, 12, 14] ∧
+    ((List.range Gen.Bsp.tables.n).filter (fun v => (specOf (A := Unit) v).isSome)).map
+      (fun v => (Gen.Bsp.tables.view v).name) = ["cubemaps", "visibility", "vertexes", "planes"] := by decide +kernel
+
+/-- the format strings of the concrete codecs are the ones `bsp.py` uses to read and to write these lumps. -/
+theorem C10_gen_concrete_formats :
+    pairFmtOK "planes" planesFmt = true ∧ pairFmtOK "vertexes" vertexFmt = true ∧ pairFmtOK "cubemaps" cubemapFmt = true ∧
+    0 < StructCodec.size planesFmt ∧ 0 < StructCodec.size vertexFmt ∧ 0 < StructCodec.size cubemapFmt := formats_ok
+
+open StructCodec C11 in
+/-- **content, with concrete codecs.** Take the tables of the current source, the real readers/writers for
+planes, vertexes, cubemaps and visibility (`concrete … specOf`), any codec `Ca` for the other views satisfying
+the laws *at those views only* (`AbstractOK`), and a file whose four lumps are what the writers produce for
+canonical records / rows (`FileOK` = the hypotheses of `C11_planes`, `C11_flat_lump`, `C11_visibility`) and
+whose parse is `E`.  After reading ANY views in ANY order and saving: `E` is still the parse of all lumps,
+un-owned lumps are byte-identical, and — with no codec hypothesis left for them — the four lumps decode with
+`planesRead` / `recsRead` / `visRead` to exactly what they decoded to before. -/
+theorem C10_content_concrete {A : Type} (Ca : Codec Bytes (CVal A)) (raw₀ : Nat → Bytes) (E : Nat → CVal A)
+    (hf : FileOK raw₀) (hE : IsEnv Gen.Bsp.tables (concrete Gen.Bsp.tables specOf Ca) raw₀ E)
+    (ha : AbstractOK Gen.Bsp.tables specOf Ca raw₀ E) (xs : List Nat) (hxs : ∀ u ∈ xs, u < Gen.Bsp.tables.n) :
+    let C := concrete Gen.Bsp.tables specOf Ca
+    let raw' := (save Gen.Bsp.tables C (accesses Gen.Bsp.tables C xs (init raw₀))).raw
+    IsEnv Gen.Bsp.tables C raw' E ∧ (∀ l, Gen.Bsp.tables.owned l = false → raw' l = raw₀ l) ∧
+    planesRead planesFmt (raw' 1) = planesRead planesFmt (raw₀ 1) ∧
+    recsRead vertexFmt (raw' 3) = recsRead vertexFmt (raw₀ 3) ∧
+    recsRead cubemapFmt (raw' 42) = recsRead cubemapFmt (raw₀ 42) ∧
+    ((raw' 4 = [] ∧ raw₀ 4 = []) ∨ (raw' 4 ≠ [] ∧ raw₀ 4 ≠ [] ∧ visRead (raw' 4) = visRead (raw₀ 4))) := by
+  intro C raw'
+  obtain ⟨h1, h2, h3, h4, h5, h6, h7⟩ := ok_parts C10_gen_ok
+  have hg := spec_good Ca raw₀ E hf hE
+  have F := concrete_frame Gen.Bsp.tables specOf Ca raw₀ E spec_frame ha
+  have R := concrete_roundtrip Gen.Bsp.tables h2 specOf Ca raw₀ E hg ha
+  obtain ⟨_, hb, hc⟩ := content_all Gen.Bsp.tables C h1 h3 h5 h4 h7 F raw₀ E hE R xs hxs
+  obtain ⟨hnone, _⟩ := flush_all Gen.Bsp.tables C h1 h2 h3 h6 h7 raw₀ xs hxs
+  have hn : Gen.Bsp.tables.n = 21 := by decide +kernel
+  have hE' : IsEnv Gen.Bsp.tables C raw' E := fun v hv => hb v hv (by omega) (hnone v)
+  -- the four concrete views, spelled out
+  have e14 := (hE' 14 (by rw [hn]; decide)).trans (hE 14 (by rw [hn]; decide)).symm
+  have e12 := (hE' 12 (by rw [hn]; decide)).trans (hE 12 (by rw [hn]; decide)).symm
+  have e4 := (hE' 4 (by rw [hn]; decide)).trans (hE 4 (by rw [hn]; decide)).symm
+  have e11 := (hE' 11 (by rw [hn]; decide)).trans (hE 11 (by rw [hn]; decide)).symm
+  simp only [C, concrete, specOf, planesSpec, flatSpec, visSpec] at e14 e12 e4 e11
+  obtain ⟨okp, okv, okc, sp, sv, sc⟩ := formats_ok
+  obtain ⟨pv, pvm, wv, wv', nv⟩ := pair_of_ok _ _ okv
+  obtain ⟨pc, pcm, wc, wc', nc⟩ := pair_of_ok _ _ okc
+  refine ⟨hE', hc, ?_, ?_, ?_, ?_⟩
+  · obtain ⟨recs, hwr, hcn, ht⟩ := hf.planes
+    have h0 := C11_planes planesFmt sp recs _ hwr hcn ht
+    rw [h0] at e14 ⊢
+    cases hr : planesRead planesFmt (raw' 1) with
+    | ok rs => rw [hr] at e14; simp at e14; rw [e14]
+    | error e => rw [hr] at e14; simp at e14
+  · obtain ⟨recs, hwr, hcn⟩ := hf.vertexes
+    have h0 := C11_flat_lump pv pvm vertexFmt vertexFmt wv wv' nv sv recs _ hwr hcn
+    rw [h0] at e12 ⊢
+    cases hr : recsRead vertexFmt (raw' 3) with
+    | ok rs => rw [hr] at e12; simp at e12; rw [e12]
+    | error e => rw [hr] at e12; simp at e12
+  · obtain ⟨recs, hwr, hcn⟩ := hf.cubemaps
+    have h0 := C11_flat_lump pc pcm cubemapFmt cubemapFmt wc wc' nc sc recs _ hwr hcn
+    rw [h0] at e4 ⊢
+    cases hr : recsRead cubemapFmt (raw' 42) with
+    | ok rs => rw [hr] at e4; simp at e4; rw [e4]
+    | error e => rw [hr] at e4; simp at e4
+  · rcases hf.visibility with h0 | ⟨hne, pvs, pas, hwr, hp, hpa⟩
+    · left
+      refine ⟨?_, h0⟩
+      simp only [h0, if_true] at e11
+      by_cases hr : raw' 4 = []
+      · exact hr
+      · simp only [hr, if_false] at e11
+        cases hv : visRead (raw' 4) with
+        | ok r => rw [hv] at e11; simp at e11
+        | error e => rw [hv] at e11; simp at e11
+    · right
+      have h0 := C11_visibility pvs pas _ hp hpa hwr
+      simp only [hne, if_false, h0] at e11
+      by_cases hr : raw' 4 = []
+      · simp [hr] at e11
+      · simp only [hr, if_false] at e11
+        refine ⟨hr, hne, ?_⟩
+        rw [h0]
+        cases hv : visRead (raw' 4) with
+        | ok r => rw [hv] at e11; simp at e11; rw [e11]
+        | error e => rw [hv] at e11; simp at e11
+
+/-! ### non-vacuity of `C10_content_concrete` -/
+
+namespace ConcreteExample
+open StructCodec C11
+
+/-- abstract remainder for the example: a view's value is the content of its main lump. -/
+def exCa : Codec Bytes (CVal Bytes) where
+  empty := []
+  dflt := .bad
+  rd := fun v raw _ => .other (raw (Gen.Bsp.tables.view v).main)
+  wr := fun v x _ raw l => if l ∈ (Gen.Bsp.tables.view v).clears then (match x with | .other b => b | _ => []) else raw l
+
+def exPlanes : List (List Val) := [[.f32 0, .f32 0, .f32 0x3f800000, .f32 0x42800000, .int 2], [.f32 0x3f800000, .f32 0, .f32 0, .f32 0, .int 0]]
+def exVerts : List (List Val) := [[.f32 0, .f32 0, .f32 0], [.f32 0x42800000, .f32 0, .f32 0x43008000]]
+def exCubes : List (List Val) := [[.int 10, .int (-20), .int 30, .int 0]]
+def exPvs : List Bytes := [[1], [2]]
+def exPas : List Bytes := [[3], [0]]
+
+def getOk (e : Except LumpErr Bytes) : Bytes := match e with | .ok b => b | .error _ => []
+
+def exRaw (l : Nat) : Bytes :=
+  if l = 1 then getOk (recsWrite planesFmt exPlanes) else if l = 3 then getOk (recsWrite vertexFmt exVerts)
+  else if l = 42 then getOk (recsWrite cubemapFmt exCubes) else if l = 4 then getOk (visWrite exPvs exPas)
+  else [UInt8.ofNat l, 7]
+
+theorem C10_example_file : FileOK exRaw where
+  planes := ⟨exPlanes, by decide +kernel, by decide +kernel, by decide +kernel⟩
+  vertexes := ⟨exVerts, by decide +kernel, by decide +kernel⟩
+  cubemaps := ⟨exCubes, by decide +kernel, by decide +kernel⟩
+  visibility := Or.inr ⟨by decide +kernel, exPvs, exPas, by decide +kernel, by decide +kernel, by decide +kernel⟩
+
+def exE : Nat → CVal Bytes := fun v => (concrete Gen.Bsp.tables specOf exCa).rd v exRaw (fun _ => .bad)
+
+theorem C10_example_env : IsEnv Gen.Bsp.tables (concrete Gen.Bsp.tables specOf exCa) exRaw exE := by
+  intro v _
+  unfold exE
+  cases hsp : specOf (A := Bytes) v with
+  | none => simp [concrete, hsp, exCa]
+  | some S => simp [concrete, hsp]
+
+theorem C10_example_abstract : AbstractOK Gen.Bsp.tables specOf exCa exRaw exE where
+  rd_frame := fun v hv _ raw raw' _ _ hr _ => by
+    simp only [exCa]
+    rw [hr _ (by simp [main_mem_clears Gen.Bsp.tables C10_gen_wf v hv])]
+  wr_frame := fun _ _ _ _ _ _ _ _ => rfl
+  roundtrip := fun v hv hsp raw₁ _ => by
+    have hm := main_mem_clears Gen.Bsp.tables C10_gen_wf v hv
+    simp [exCa, applyWr, hm, exE, concrete, hsp]
+  aux_stable := fun v _ _ raw₁ _ l _ hnc => by simp [exCa, hnc]
+
+/-- `C10_content_concrete` applies to it: e.g. after reading planes, faces and visibility and saving. -/
+example : planesRead planesFmt
+    ((save Gen.Bsp.tables (concrete Gen.Bsp.tables specOf exCa)
+      (accesses Gen.Bsp.tables (concrete Gen.Bsp.tables specOf exCa) [14, 15, 11] (init exRaw))).raw 1) = .ok exPlanes := by
+  have h := (C10_content_concrete exCa exRaw exE (by exact C10_example_file) C10_example_env C10_example_abstract [14, 15, 11] (by decide +kernel)).2.2.1
+  rw [h]
+  decide +kernel
+
+end ConcreteExample
 
 /-! ## The byte layer (`Model/C10Bytes.lean`): header, lump table, revision, bodies, game-lump section -/
 
